@@ -35,10 +35,24 @@ def _err(fn, *a, **kw):
         return f'<{type(exc).__name__}>'
 
 
+def _id(x):
+    i = getattr(x, 'id', None)
+    if i is None:
+        return str(x)
+    if isinstance(i, str) and i.startswith('*'):
+        return f"{i}[{getattr(x, '_ili', None)}]"     # placeholders differ by their ILI
+    return i
+
+
 def _ids(xs):
     if isinstance(xs, str):
         return xs
-    return [getattr(x, 'id', str(x)) for x in xs]
+    return [_id(x) for x in xs]
+
+
+def _items(d):
+    """A mapping as a list of pairs: the order of a returned mapping is part of the result."""
+    return [[str(k), v] for k, v in d.items()]
 
 
 def transcript(xml: Path, scratch: Path, tag: str, config) -> list:
@@ -90,23 +104,23 @@ def transcript(xml: Path, scratch: Path, tag: str, config) -> list:
         for s in w.senses():
             put(['sense', s.id, s.examples(), [int(c) for c in s.counts()], s.frames(),
                  [[r.name, r.target_id, r.subtype] for r in s.relation_map()],
-                 {k: _ids(v) for k, v in s.relations().items()}, _ids(s.get_related()),
+                 _items({k: _ids(v) for k, v in s.relations().items()}), _ids(s.get_related()),
                  _ids(s.get_related_synsets()), _ids(s.closure('antonym', 'also', 'zz_rel'))])
         sss = w.synsets()
         for ss in sss:
             put(['synset', ss.id, ss.definition(), ss.examples(), _ids(ss.senses()),
                  _err(lambda: [str(x) for x in ss.lemmas()]),
                  [[r.name, r.target_id, r.subtype] for r in ss.relation_map()],
-                 {k: _ids(v) for k, v in ss.relations().items()},
+                 _items({k: _ids(v) for k, v in ss.relations().items()}),
                  _ids(ss.get_related()), _ids(ss.hypernyms()), _ids(ss.hyponyms()),
                  [_ids(p) for p in ss.hypernym_paths()], ss.min_depth(), ss.max_depth(),
                  _ids(ss.closure('hypernym')), _ids(ss.translate())])
         put(['roots', _ids(tax.roots(w)), 'leaves', _ids(tax.leaves(w))])
         depth = {p: tax.taxonomy_depth(w, p) for p in ('n', 'v', 'a')}
-        put(['taxonomy_depth', depth])
+        put(['taxonomy_depth', _items(depth)])
         corpus = [str(wd.lemma()) for wd in w.words()] * 2 + ['unknown-token']
         freq = wn.ic.compute(corpus, w)
-        put(['ic', {p: list(d.items()) for p, d in freq.items()}])
+        put(['ic', _items({p: _items(d) for p, d in freq.items()})])
         for a in sss:
             for b in sss:
                 for root in (False, True):
@@ -121,8 +135,8 @@ def transcript(xml: Path, scratch: Path, tag: str, config) -> list:
         m0, m1 = wn.morphy.Morphy(), wn.morphy.Morphy(w)
         for wd in w.words()[:6]:
             for q in (str(wd.lemma()), str(wd.lemma()) + 's', str(wd.lemma()) + 'es'):
-                put(['morphy', q, {str(k): sorted(v) for k, v in m0(q).items()},
-                     {str(k): sorted(v) for k, v in m1(q).items()}])
+                put(['morphy', q, _items({str(k): sorted(v) for k, v in m0(q).items()}),
+                     _items({str(k): sorted(v) for k, v in m1(q).items()})])
         with warnings.catch_warnings():
             warnings.simplefilter('ignore')
             lw = wn.Wordnet(lexicon, expand=expand, lemmatizer=m1)
